@@ -11,9 +11,9 @@
    checked by correspondence (pretty-printing generated ASTs under all spellings/layouts and comparing the parser's
    ASTs and the verdicts; tools/gv/props/c14.py). *)
 From GV.Model Require Import Ast Spec.
-From GV.Model Require Import Lex ValueParse QueryParse OpParse ClauseParse CnfParse FilterParse ClauseFParse CnfFParse.
+From GV.Model Require Import Lex ValueParse QueryParse OpParse ClauseParse CnfParse FilterParse ClauseFParse CnfFParse LetParse.
 From GV.Proofs Require Import LexProps ValueParseProps ValueSpellProps ValueSpellExample.
-From GV.Proofs Require Import QueryParseProps QuerySpellProps QuerySpellExample ThisProps OpParseProps ClauseParseProps ClauseSpellProps ClauseSpellExample CnfParseProps OpSoundProps ClauseFuelProps CnfSpellProps CnfSpellExample FilterParseProps ClauseFProps CnfFProps.
+From GV.Proofs Require Import QueryParseProps QuerySpellProps QuerySpellExample ThisProps OpParseProps ClauseParseProps ClauseSpellProps ClauseSpellExample CnfParseProps OpSoundProps ClauseFuelProps CnfSpellProps CnfSpellExample FilterParseProps ClauseFProps CnfFProps LetParseProps.
 
 Theorem C14_keyword_tables_are_the_documented_ones :
   set_eqb kw_in_keyword ["in"; "IN"] = true /\ set_eqb kw_keys ["keys"; "KEYS"] = true /\
@@ -321,3 +321,28 @@ Theorem C14_conditions_parser_with_filters_extends : forall rv s x, single_claus
   single_clauses_f_top rv s = pmap (map (map embed_when)) x.
 Proof. exact conditions_f_extend. Qed.
 Print Assumptions C14_conditions_parser_with_filters_extends.
+
+(* ---- assignments (Model/LetParse.v = parser.rs let_assignment_expr / assignment) ---- *)
+
+(* every spelling `let <layout> name <layout> = or := <layout> value` is the assignment of that value to that name *)
+Theorem C14_every_spelling_of_an_assignment_parses : forall rv w1 name w2 eq w3 t rest,
+  layout w1 -> w1 <> EmptyString -> wf_name name -> layout w2 -> In eq kw_assign -> layout w3 -> wf rv t -> follow t rest ->
+  assignment_top rv ("let" +++ (w1 +++ (name +++ (w2 +++ (eq +++ (w3 +++ (render t +++ rest))))))) = POk (mkPL name (LVLit (denote t))) rest.
+Proof. exact let_spelling_parses. Qed.
+Print Assumptions C14_every_spelling_of_an_assignment_parses.
+
+(* `=` and `:=` are one sign *)
+Theorem C14_assignment_signs_agree : forall rv w1 w1' name w2 w2' w3 w3' t t' rest,
+  layout w1 -> w1 <> EmptyString -> layout w1' -> w1' <> EmptyString -> wf_name name -> layout w2 -> layout w2' -> layout w3 -> layout w3' ->
+  wf rv t -> wf rv t' -> follow t rest -> follow t' rest -> denote t = denote t' ->
+  assignment_top rv ("let" +++ (w1 +++ (name +++ (w2 +++ ("=" +++ (w3 +++ (render t +++ rest))))))) =
+  assignment_top rv ("let" +++ (w1' +++ (name +++ (w2' +++ (":=" +++ (w3' +++ (render t' +++ rest))))))).
+Proof. exact assignment_signs_agree. Qed.
+Print Assumptions C14_assignment_signs_agree.
+
+Theorem C14_assignment_of_a_variable_query_parses : forall rv w1 name w2 eq w3 v ps rest,
+  layout w1 -> w1 <> EmptyString -> wf_name name -> layout w2 -> In eq kw_assign -> layout w3 -> qwf (mkCQ None (CVar v) ps) -> query_end rest ->
+  assignment_top rv ("let" +++ (w1 +++ (name +++ (w2 +++ (eq +++ (w3 +++ (qrender (mkCQ None (CVar v) ps) +++ rest))))))) =
+  POk (mkPL name (LVQuery (embed (qdenote (mkCQ None (CVar v) ps))))) rest.
+Proof. exact let_query_spelling_parses. Qed.
+Print Assumptions C14_assignment_of_a_variable_query_parses.
